@@ -604,15 +604,32 @@ def apply_suite(ctx, nb):
         keys = [None, None] + present + present + [rng.choice(GATE_CLASSES[:17])]
         rules = [gen_rule(rng, n, i, keys) for i in range(rng.choice([0, 1, 1, 2, 2, 3, 4, 6]))]
         cases.append((n, rng.random() < 0.6, gs, rules, "NoiseModel"))
+    # gate kinds beyond plain gates: the blocks of a fused circuit (FusedGate, a SpecialGate: rules keyed by None DO apply to it,
+    # rules keyed by the classes of the gates it absorbed do not) and a callback gate (no qubits: nothing is attached)
+    special = set()
+    for i in range(len(fixed), len(cases)):
+        if len(cases[i][2]) >= 2 and rng.random() < 0.22:
+            special.add(i)
+            if not any(r["key"] is None for r in cases[i][3]):
+                cases[i][3].append(gen_rule(rng, cases[i][0], len(cases[i][3]), [None]))
     built, lines = [], []
-    for n, dm, gs, rules, mc in cases:
+    for ci, (n, dm, gs, rules, mc) in enumerate(cases):
         src = case_source(n, dm, gs, rules, mc)
+        if ci in special:
+            posts = ["c = c.fuse()\n", "c = c.fuse(max_qubits=1)\n", "c = c.fuse()\n"]
+            if not any(cd[0] == 3 for r in rules for cd in r["conds"]):  # (the generated condition `g.qubits[0] % 2 == 0` needs a qubit)
+                posts.append("from qibo import callbacks\nc.add(gates.CallbackGate(callbacks.Norm()))\nc = c.fuse()\n")
+            post = rng.choice(posts)
+            src = src.replace(f"nm = {mc}()\n", post + f"nm = {mc}()\n", 1)
         try:
             ns = run_source(src)
         except Exception as e:  # noqa: BLE001 - an invalid generated circuit (e.g. duplicate register)
             ctx.stat("gen_invalid")
             continue
         c = ns["c"]
+        for g in c.queue:
+            if g.__class__.__name__ in ("FusedGate", "CallbackGate"):
+                ctx.stat("apply_entry:" + g.__class__.__name__)
         built.append((src, ns, list(c.queue), rules))
         lines.append(apply_line(list(c.queue), rules))
     outs = run_driver(lines, driver=DRIVER)
